@@ -229,3 +229,42 @@ def numpy_reductions_get_arrays(ctx):
     m = ctx.model.module('mystic.math.discrete')
     ents = [f.anchor for q, f in sorted(m.funcs.items()) if q.count('.') <= 1 and not q.split('.')[-1].startswith('__')]
     npcalls.check_closure(ctx, ents, min_sites=5)
+
+
+@rule('C19.g', min_instances=5)
+def measure_setters_and_measure_constraints(ctx):
+    """measure.center_mass / range / var reach their value through impose_mean / impose_spread / impose_variance, which keep their affine constructions over ALL positions (shared with C18.b: the range getter is max - min over all positions, so the setter must rescale by that same spread); impose_measure applies every collapse of every dict it was given, in order, per call (a tuple of dicts is never merged by key: two dicts may address the same measure)"""
+    from .c18 import affine_shape
+    affine_shape(ctx)
+    f = ctx.func('mystic.constraints:impose_measure')
+    g = ctx.func('mystic.constraints:impose_measure.dec.func')
+    ref_outer = '''def impose_measure(npts, tracking={}, noweight={}):
+    if type(tracking) is dict: tracking = (tracking,)
+    if type(noweight) is dict: noweight = (noweight,)
+    def dec(f):
+        pass
+    return dec
+'''
+    ref_inner = '''def func(x, *args, **kwds):
+    c = product_measure()
+    c.load(x, npts)
+    for clps in tracking:
+        for k,v in clps.items():
+            c[k].positions, c[k].weights = impose_collapse(v, c[k].positions, c[k].weights)
+    for clps in noweight:
+        for k,v in clps.items():
+            c[k].positions, c[k].weights = impose_unweighted(v, c[k].positions, c[k].weights, False)
+    return f(c.flatten(), *args, **kwds)
+'''
+    import copy as _copy
+    outer = _copy.deepcopy(f.node)
+    for n in ast.walk(outer):
+        if isinstance(n, ast.FunctionDef) and n.name == 'dec':
+            n.body = [ast.Pass()]
+    ast.fix_missing_locations(outer)
+    for node, src, what, label in ((outer, ref_outer, 'a single dict is wrapped in a tuple; nothing is merged', 'impose_measure'),
+                                   (g.node, ref_inner, 'every collapse of every dict is applied per call, tracking first, then noweight', 'impose_measure.func')):
+        got = SB.summary(node)
+        want = SB.summary_of_source(src)
+        ctx.stats['terms_compared'] += len(got)
+        ctx.check(got == want, label, what, '%s differs from its confirmed behaviour: %s' % (label, SB.diff(got, want)), f, f.node if node is outer else g.node)
